@@ -273,6 +273,18 @@ fn render(space: &TypeSpace) -> Rendered {
     }
 }
 
+thread_local! {
+    static PROGRESS: RefCell<Option<(String, String)>> = const { RefCell::new(None) };
+}
+
+fn phase(p: &str) {
+    PROGRESS.with(|pr| {
+        if let Some((path, id)) = &*pr.borrow() {
+            std::fs::write(path, format!("{}\t{}", id, p)).ok();
+        }
+    });
+}
+
 fn run_case(case: &Value) -> Value {
     let mut out = Map::new();
     out.insert("id".into(), case["id"].clone());
@@ -307,6 +319,7 @@ fn run_case(case: &Value) -> Value {
         }
     };
     let mut space = TypeSpace::new(&settings);
+    phase("ingest");
 
     let mut steps = Vec::new();
     let mut snaps = Vec::new();
@@ -436,7 +449,9 @@ fn run_case(case: &Value) -> Value {
             out.insert("defs".into(), Value::Object(defs));
         }
 
+        phase("render");
         let r1 = render(&space);
+        phase("post");
         out.insert("render".into(), json!(r1.status));
         if let Some(m) = &r1.msg {
             out.insert("render_msg".into(), json!(m));
@@ -555,6 +570,12 @@ fn real_main() {
             }
         };
         std::fs::write(&progress_path, case["id"].as_str().unwrap_or("?")).ok();
+        PROGRESS.with(|pr| {
+            *pr.borrow_mut() = Some((
+                progress_path.clone(),
+                case["id"].as_str().unwrap_or("?").to_string(),
+            ))
+        });
         let res = run_case(&case);
         writeln!(output, "{}", res).unwrap();
         output.flush().unwrap();
